@@ -15,20 +15,41 @@ impl SerdeParser {
     pub fn parse_struct_serde_attrs(&self, attrs: &[Attribute]) -> SerdeStructAttributes {
         let mut result = SerdeStructAttributes { rename_all: None };
 
-        for attr in attrs {
-            if attr.path().is_ident("serde") {
-                if let Ok(tokens) = syn::parse2::<syn::MetaList>(attr.meta.to_token_stream()) {
-                    let tokens_str = tokens.tokens.to_string();
-
-                    // Parse rename_all = "convention"
-                    if let Some(convention) = self.parse_rename_all(&tokens_str) {
-                        result.rename_all = Some(convention);
-                    }
-                }
+        for tokens_str in Self::serde_arguments(attrs) {
+            // Parse rename_all = "convention"
+            if let Some(convention) = self.parse_rename_all(&tokens_str) {
+                result.rename_all = Some(convention);
             }
         }
 
         result
+    }
+
+    /// The argument text of every serde attribute in `attrs`: #[serde(..)] itself, and a serde(..)
+    /// listed in #[cfg_attr(<condition>, ..)] - the bindings describe the crate with its serde
+    /// support switched on, as the derives taken from cfg_attr already do
+    fn serde_arguments(attrs: &[Attribute]) -> Vec<String> {
+        let mut arguments = Vec::new();
+        for attr in attrs {
+            if attr.path().is_ident("serde") {
+                if let Ok(list) = attr.meta.require_list() {
+                    arguments.push(list.tokens.to_string());
+                }
+            } else if attr.path().is_ident("cfg_attr") {
+                let listed = attr.parse_args_with(
+                    syn::punctuated::Punctuated::<syn::Meta, syn::Token![,]>::parse_terminated,
+                );
+                // the first entry is the condition
+                for meta in listed.iter().flatten().skip(1) {
+                    if let syn::Meta::List(list) = meta {
+                        if list.path.is_ident("serde") {
+                            arguments.push(list.tokens.to_string());
+                        }
+                    }
+                }
+            }
+        }
+        arguments
     }
 
     /// rename_all argument of the command macro: #[tauri::command(rename_all = "snake_case")]
@@ -52,23 +73,17 @@ impl SerdeParser {
             skip: false,
         };
 
-        for attr in attrs {
-            if attr.path().is_ident("serde") {
-                if let Ok(tokens) = syn::parse2::<syn::MetaList>(attr.meta.to_token_stream()) {
-                    let tokens_str = tokens.tokens.to_string();
+        for tokens_str in Self::serde_arguments(attrs) {
+            // Check for skip flag: an item that is exactly `skip` — not `skip_serializing_if = ..`,
+            // and not the word "skip" inside a string such as rename = "skip_count"
+            let masked = super::validator_parser::mask_string_literals(&tokens_str);
+            if masked.split(',').any(|item| item.trim() == "skip") {
+                result.skip = true;
+            }
 
-                    // Check for skip flag: an item that is exactly `skip` — not `skip_serializing_if = ..`,
-                    // and not the word "skip" inside a string such as rename = "skip_count"
-                    let masked = super::validator_parser::mask_string_literals(&tokens_str);
-                    if masked.split(',').any(|item| item.trim() == "skip") {
-                        result.skip = true;
-                    }
-
-                    // Parse rename = "value"
-                    if let Some(rename) = self.parse_rename(&tokens_str) {
-                        result.rename = Some(rename);
-                    }
-                }
+            // Parse rename = "value"
+            if let Some(rename) = self.parse_rename(&tokens_str) {
+                result.rename = Some(rename);
             }
         }
 
